@@ -19,6 +19,7 @@ func c12(c *Ctx) {
 	c.listWriterDiscipline()
 	c.noNegativeIndex("R12.8")
 	c.headerOffsetsInRange("R12.9")
+	c.emptyBodyHasNoLines("R12.10")
 	c.boundedRecursion("R12.1", []string{"rfc5322", "rfc822", "imap", "rfcparser"}, []string{"rfc5322", "rfc822", "imap"}, 5)
 }
 
@@ -150,4 +151,57 @@ func (c *Ctx) headerOffsetsInRange(rule string) {
 	R.Stats[rule+" copies of keyStart/keyEnd (not judged)"] = copies
 	R.Stats[rule+" stores of the cursor hp.offset (tabled: taken right after consuming the line feed read at an index < len)"] = tabled
 	R.Min(rule, "offset stores judged", n, 3)
+}
+
+// emptyBodyHasNoLines (R12.10): the line count of an empty body is zero.
+func (c *Ctx) emptyBodyHasNoLines(rule string) {
+	P, R := c.P, c.R
+	R.Explain(rule, "sizes and line counts: in imap.countLines every increment that flows into the returned count is dominated by a condition that makes the bytes still to be counted non-empty (len(x) >= 1 proved for a slice derived from the argument).  A count of `number of line feeds, plus one if the text does not end in one` gives 1 for the empty body; BODYSTRUCTURE then reports `0 1` (size 0, one line) for every empty text part.")
+	f := c.fn(rule, "imap.countLines")
+	if f == nil {
+		return
+	}
+	// len(...) values of slices derived from the parameter
+	var lens []ssa.Value
+	for _, b := range f.Blocks {
+		for _, in := range b.Instrs {
+			if v, isVal := in.(ssa.Value); isVal {
+				if call, ok := engine.IsBuiltinCall(v, "len"); ok {
+					lens = append(lens, call)
+				}
+			}
+		}
+	}
+	n := 0
+	for _, b := range f.Blocks {
+		for _, in := range b.Instrs {
+			bo, ok := in.(*ssa.BinOp)
+			if !ok || bo.Op != token.ADD {
+				continue
+			}
+			k, isK := bo.Y.(*ssa.Const)
+			if !isK || k.Value == nil || k.Value.Kind() != constant.Int || k.Int64() <= 0 {
+				continue
+			}
+			// flows into a result?
+			flows := false
+			for _, ret := range engine.Returns(f) {
+				if len(ret.Results) > 0 && engine.AnyBackward(ret.Results[0], engine.FlowOpts{}, func(x ssa.Value) bool { return x == ssa.Value(bo) }) {
+					flows = true
+				}
+			}
+			if !flows {
+				continue
+			}
+			n++
+			ok2 := false
+			for _, l := range lens {
+				if engine.EntailedAt(f, b, l, 1, false, P.IsOwn) {
+					ok2 = true
+				}
+			}
+			R.Check(ok2, rule, c.name(f)+"|increment only for non-empty input", P.Pos(bo.Pos()), "dominated by len(...) >= 1", "the line count is incremented on a path on which the remaining bytes may be empty: an empty body is reported with one line")
+		}
+	}
+	R.Min(rule, "increments of the line count", n, 1)
 }
